@@ -175,8 +175,11 @@ void JunctionRef::moveAttachedConns(const Point& newPosition)
     {
         ConnEnd *connEnd = *curr;
         COLA_ASSERT(connEnd->m_conn_ref != nullptr);
+        // As for shapes, this is an update caused by the move: it must not
+        // replace a change the user has queued for the same connector end.
+        bool connPinUpdate = true;
         m_router->modifyConnector(connEnd->m_conn_ref, connEnd->endpointType(),
-                *connEnd);
+                *connEnd, connPinUpdate);
     }
     for (ShapeConnectionPinSet::iterator curr = 
             m_connection_pins.begin(); curr != m_connection_pins.end(); ++curr)
